@@ -87,6 +87,15 @@ theorem interface_reads_hashed :
       ∧ f ∈ MsgBridgeCallResultClaim.hashedFields ∧ f ∈ MsgSendToExternalClaim.hashedFields
       ∧ f ∈ MsgBridgeTokenClaim.hashedFields ∧ f ∈ MsgOracleSetUpdatedClaim.hashedFields := by decide
 
+/-- the two type switches that decide when a claim runs (REGENERATED case lists of `AttestationHandler` and `ExecuteClaim`):
+every claim type is either stored for `ExecuteClaim` or handled at once, never both and none forgotten; `ExecuteClaim` can
+run exactly the stored types (a stored claim of a type it cannot run would stay pending for ever) — the model's `deferred`
+is this table -/
+theorem dispatch_covers :
+    (∀ t ∈ claimTypes, (t ∈ storedTypes ∨ t ∈ immediateTypes) ∧ ¬ (t ∈ storedTypes ∧ t ∈ immediateTypes))
+    ∧ (∀ t ∈ storedTypes ++ immediateTypes, t ∈ claimTypes)
+    ∧ (∀ t ∈ storedTypes, t ∈ runnableTypes) ∧ (∀ t ∈ runnableTypes, t ∈ storedTypes) := by decide
+
 /-- the one struct field that is not demanded of the hash, `MsgBridgeTokenClaim.Name`, is indeed never read by the keeper -/
 theorem bridgeToken_name_never_read : "Name" ∉ MsgBridgeTokenClaim.readFields := by decide
 
